@@ -101,3 +101,21 @@ Fixpoint pairwise {A} (R : A -> A -> Prop) (l : list A) : Prop :=
   | [] => True
   | x :: r => Forall (R x) r /\ pairwise R r
   end.
+
+(* the segments of the renamed text: same gaps, the selected words replaced *)
+Fixpoint relabel_segs (segs : segments) (sel : list bool) (nw : text) : segments :=
+  match segs with
+  | [] => []
+  | (g, w) :: r =>
+      match sel with
+      | true :: s => (g, nw) :: relabel_segs r s nw
+      | _ :: s => (g, w) :: relabel_segs r s nw
+      | [] => (g, w) :: relabel_segs r [] nw
+      end
+  end.
+
+(* rename_in_module on the text of a module whose identifier tokens are the words of [segs], carrying the ids [wids]:
+   ChangeCollector is given the word range of every token whose id is in [ids] *)
+Definition memNid (x : N) (l : list N) : bool := existsb (N.eqb x) l.
+Definition rename_text (segs : segments) (wids ids : list N) (nw tail : text) : option text :=
+  get_changed (render segs tail) (word_changes 0 segs (map (fun i => memNid i ids) wids) nw).
